@@ -34,6 +34,11 @@ var Solvers = []SolverCfg{
 	{"cvc5", func(t int, f string) []string {
 		return []string{"cvc5", fmt.Sprintf("--tlimit=%d", t*1000), "--produce-models", f}
 	}},
+	// same solver without E-matching (model-based quantifier instantiation only): decides goals on which the
+	// multi-pattern axioms of the run-end functions make E-matching diverge
+	{"z3-new/mbqi", func(t int, f string) []string {
+		return []string{"z3-new", fmt.Sprintf("-T:%d", t), "smt.ematching=false", f}
+	}},
 }
 
 // WorkDir is where query files are written.
